@@ -145,6 +145,9 @@ fn svg_record(seed: u64, n: u64, target: usize, path: &str) -> Value {
             3 => format!("ab\r\x1b[K\ncd\r\x1b[0m\nef\r\x1b]8;;\x1b\\\ngh\x1b[1m\r\x1b[K\x1b[K\nij{}", svg_text(&mut r, target / 2)),
             // blanks whose decoration (underline / strikethrough / background) must keep the colour in force when only the
             // foreground changes right behind them
+            // different direct colours whose hexadecimal digits coincide once leading zeros are dropped (#012345 / #120345,
+            // #0A0B0C / #A0B0C0 ...) in all three slots of ONE document
+            6 if k % 3 == 1 => format!("\x1b[38;2;1;35;69mA\x1b[38;2;18;3;69mB\x1b[0m\x1b[48;2;10;11;12mC\x1b[48;2;160;176;192mD\x1b[0m\x1b[4;58;2;1;2;3mE\x1b[58;2;16;32;48mF\x1b[58;2;0;18;3mG\x1b[0m\n{}", svg_text(&mut r, target / 2)),
             6 if k % 3 == 0 => format!("\x1b[4;31m  \x1b[32mx\x1b[0m\n\x1b[9;35m\t\x1b[36my\x1b[0m \x1b[41m \x1b[44m \x1b[0m|\n{}", svg_text(&mut r, target / 2)),
             4 if k % 2 == 0 => format!("kl\r\x1b[31m\nmn\x1b[0m\r\x1b[4m\x1b[K\nop{}", svg_text(&mut r, target / 2)),
             // no escape sequence at all, but controls that are executed (BEL, BS, SOH, VT, SO): the text goes through the same
